@@ -39,6 +39,7 @@ def gen_plan(seed, i, tier):
     if steps[0]['how'] == 'assign_loaded':
         steps[0]['loaded'] = {'sample': rng.choice(names)}
     live = [0, 1]
+    allowed = edits.swarm_subset(rng)
     for _ in range(rng.range(2, 12)):
         op = rng.weighted([('Edit', 10), ('Save', 3), ('Query', 2), ('Copy', 2), ('Destroy', 2)])
         if op == 'Copy':
@@ -56,7 +57,7 @@ def gen_plan(seed, i, tier):
             live.remove(a)
             st = {'op': 'Destroy', 'slot': a}
         elif op == 'Edit':
-            st = {'op': 'Edit', 'slot': rng.choice(live), 'edit': edits.edit_step(rng, 'quick', version_hint=ver)}
+            st = {'op': 'Edit', 'slot': rng.choice(live), 'edit': edits.edit_step(rng, 'quick', version_hint=ver, allow=allowed)}
         elif op == 'Save':
             st = {'op': 'Save', 'slot': rng.choice(live), 'raw': rng.chance(0.5)}
         else:
